@@ -128,7 +128,7 @@ class _SimpleWrapped(object):
 
     def __repr__(self):
         return '<{0!r} wrapped with {1!r}>'.format(
-                self.__wrapped__, self.wrapper)
+                getattr(self, '__wrapped__', None), self.wrapper)
 
 
 @specifiers.forwards_to_function(specifiers.forwards, 2)
@@ -229,7 +229,7 @@ class _Wrapped(object):
 
     def __repr__(self):
         return '<{0!r} wrapped with {1!r}>'.format(
-                self.__wrapped__, self.wrapper)
+                getattr(self, '__wrapped__', None), self.wrapper)
 
 def wrappers(obj):
     """For introspection purposes, returns an iterable that yields each
